@@ -175,7 +175,7 @@ Emit(t, m, ml) ==
 SameBag(a, b) == Len(a) = Len(b) /\ \A x \in ToSet(a) \cup ToSet(b) :
                    Cardinality({i \in DOMAIN a : a[i] = x}) = Cardinality({i \in DOMAIN b : b[i] = x})
 
-\* (V = Vis(current span of t), hasSpan = there is a current span; passed in so they are computed once)
+\* (V = Vis(current span of the emitting thread), the empty map when there is none; passed in so it is computed once)
 PNoDup(key) == Cardinality(NamesOf(key)) = Len(key)           \* no label name twice
 PMetricWins(ml, key) == ToSet(ml) \subseteq ToSet(key)        \* own labels kept, own value wins
 PSpanFieldsV(f, V, m, ml, key) ==                              \* besides, exactly the admitted visible fields
